@@ -537,6 +537,10 @@ func c15(c *core.Ctx) {
 	// keep no copy of what the registry answered earlier (a lookup cache, negative entries included, goes stale
 	// with the next registration): nothing reachable from a call stores into a long-lived object (C01/R1)
 	c.Borrow("C01", map[string]string{"R1": "R5"}, c01)
+	// "refused by panicking" for exactly the two reasons named: every explicit panic of the library, the registrars'
+	// included, is a tabled one (C05/R5) — a registrar that also panics once the server has seen a request refuses
+	// well-typed first registrations
+	c.Borrow("C05", map[string]string{"R5": "R6"}, c05)
 }
 
 // mayPanicExplicitly: fn (a module function) contains an explicit panic, or
